@@ -143,12 +143,30 @@ static void activity(void) {   // ordinary allocator use: small and medium block
   void* m = mi_malloc(70000); mi_free(m);
   mi_collect(false);
 }
+// staggered frees of whole segments, one every half arena delay: a region freed at time t must have been purged by the first
+// arena activity at or after t + delay (the pending expiry is never pushed back by later frees)
+static void staggered(long purge_delay, long mult) {
+  enum { NS = 12 }; static blk_t b[NS]; long long freed_at[NS]; const long D = purge_delay * mult;
+  for (int i = 0; i < NS; i++) { size_t n = (size_t)(18 + i % 8) << 20; b[i].p = (uint8_t*)mi_malloc(n); b[i].n = n; if (b[i].p) memset(b[i].p, 0x5A, n); }
+  for (int i = 0; i < NS; i++) {
+    if (!b[i].p) continue;
+    mi_free(b[i].p); freed_at[i] = verif_now_ms();           // the free schedules the purge and runs the non-forced arena purge
+    const long long now = verif_now_ms();
+    for (int j = 0; j <= i; j++) { if (!b[j].p || freed_at[j] + D > now) continue;
+      size_t lo = _mi_align_up((uintptr_t)b[j].p, VM_PAGE), hi = ((uintptr_t)b[j].p + b[j].n) & ~(uintptr_t)(VM_PAGE - 1);
+      if (vm_page_state(lo) < 0) continue;                    // unmapped: given back entirely
+      size_t u = vm_unpurged_pages(lo, hi - lo); n_eval++;
+      if (u > 0) { FAIL("arena_purge_postponed", "region %d (freed at %lld ms, arena delay %ld ms) still has %zu committed pages at %lld ms although the arena was used (a free) after the expiry", j, freed_at[j], D, u, now); return; } }
+    verif_advance_ms(D / 2 + 1);
+  }
+}
 static void oracle(long purge_delay, int decommits, int workload) {
   mi_option_set(mi_option_purge_delay, purge_delay);
   mi_option_set(mi_option_purge_decommits, decommits);
   const long mult = mi_option_get(mi_option_arena_purge_mult);
   const long extend = mi_option_get(mi_option_purge_extend_delay);
   void* warm = mi_malloc(100); (void)warm;
+  if (workload == 3) { if (purge_delay > 0) staggered(purge_delay, mult); return; }
   static blk_t live[20000]; int nlive = 0;
   if (workload == 0) {         // free whole pages: medium blocks, keep every 40th so that segments stay alive
     for (int i = 0; i < 2400; i++) { size_t n = 20000 + (size_t)(rnd() % 100000); uint8_t* p = (uint8_t*)mi_malloc(n); if (!p) continue; memset(p, 0x5A, n); live[nlive].p = p; live[nlive].n = n; nlive++; }
